@@ -4,6 +4,7 @@
    Gen/ResolverTables.v, regenerated from /repo on every run. *)
 From Coq Require Import ZArith Bool.
 From PV Require Import Base.Common Base.IR Base.Bits Model.Lower Proofs.LowerProofs.
+From PV Require Model.Cfg Proofs.CfgProofs Model.Syntax Model.LabelScope.
 Open Scope Z_scope.
 
 (* For every binary operator and every primitive type the resolver admits for
@@ -66,7 +67,53 @@ Example C01_example :
   ir_binop (select_binop Divide (signed Int8)) 8 (repr 8 (-128)) (repr 8 3) = Some (repr 8 (-42)).
 Proof. vm_compute. repeat split; congruence. Qed.
 
+(* Control flow.  The generator's lowering of goto / label / if / else / block /
+   loop to basic blocks (Model/Cfg.v, compared block by block with the emitted IR
+   on every run) preserves behaviour: for ANY state type, action and condition
+   semantics, a structured run (the control skeleton of the definitional
+   interpreter Model/Sem.v) that terminates is reproduced by the CFG - same final
+   state, and same sequence of executed actions. *)
+Theorem C01_lower_simulates : forall (St : Type) (act : N -> St -> St) (cond : N -> St -> bool) body g,
+  Cfg.lower_body body = Some g -> NoDup (Cfg.labels_list body) ->
+  forall f st st', Cfg.run_body St act cond f body st = Cfg.Ok st' ->
+  exists n, (n <= CfgProofs.bound f + 1)%nat /\
+    forall m, (n <= m)%nat -> Cfg.run_cfg St act cond m g st = Cfg.CRet st'.
+Proof. exact CfgProofs.lower_simulates. Qed.
+
+Theorem C01_lower_simulates_trace : forall St (act : N -> St -> St) (cond : N -> St -> bool) body g,
+  Cfg.lower_body body = Some g -> NoDup (Cfg.labels_list body) ->
+  forall f st tr st', Cfg.trace_body act cond f body st = Cfg.Ok (tr, st') ->
+  exists n, (n <= CfgProofs.bound f + 1)%nat /\
+    forall m, (n <= m)%nat -> Cfg.trace_cfg act cond m g st = Cfg.CRet (tr, st').
+Proof. exact CfgProofs.lower_simulates_trace. Qed.
+
+(* A body that passes the syntax analysis (C06 specification), the label scoper
+   (C04 specification) and has unique label ids compiles, and its structured
+   runs never get stuck on a jump. *)
+Theorem C01_stages_accept : forall body,
+  Syntax.spec_body (map CfgProofs.to_syn body) = nil ->
+  LabelScope.spec_body (map CfgProofs.to_ls body) = nil ->
+  Cfg.nodupb (Cfg.labels_list body) = true ->
+  Cfg.accepted body = true.
+Proof. exact CfgProofs.stages_accept. Qed.
+
+Theorem C01_accepted_compiles : forall body,
+  Cfg.accepted body = true ->
+  exists g, Cfg.lower_body body = Some g /\ CfgProofs.cfg_wf (Cfg.labels_list body) g /\
+    forall St act cond f st,
+      match Cfg.run_body St act cond f body st with
+      | Cfg.Ok st' => forall m, Cfg.run_cfg St act cond m g st = Cfg.COutOfFuel \/
+                            Cfg.run_cfg St act cond m g st = Cfg.CRet st'
+      | Cfg.Stuck => False
+      | Cfg.OutOfFuel => True
+      end.
+Proof. exact CfgProofs.accepted_compiles. Qed.
+
 Print Assumptions C01_binop_lowering_correct.
+Print Assumptions C01_lower_simulates.
+Print Assumptions C01_lower_simulates_trace.
+Print Assumptions C01_stages_accept.
+Print Assumptions C01_accepted_compiles.
 Print Assumptions C01_unop_lowering_correct.
 Print Assumptions C01_icmp_lowering_correct.
 Print Assumptions C01_cast_lowering_correct.
